@@ -193,6 +193,7 @@ def write_roundtrip_script(spec):
 
 def main():
     family.SAME_NAME_BRACKETS = True
+    family.UINT8_UPDATES = True
     tier, seed = runner.tier(), runner.seed()
     rep = runner.Report(PROP, "translation_validation")
     st = selftest.run(seed)
